@@ -120,6 +120,15 @@ Second generation (class GenR; Gen/CommitmentPolicyGen.v): functions over struct
                of one translated into another generated file (validate_fee of Gen/CommitmentPolicyGen.v);
                an opaque call (i) may be any expression over the unshadowed parameters, given to the translator as
                source text and compared as a syntax tree (`mutual_close_tx_weight(&ClosingTransaction::new(..)..)`).
+  added for Gen/OnchainGen.v (the numeric rules of the on-chain validator):
+               `Result<u64, ValidationError>` (`Ok(v)` = `OkR v`; `self.m(..)?` of such a method has the value);
+               `const NAME: S = S { f: <literal>, .. };` for a declared struct S (a record value);
+               `opt.as_ref().unwrap_or(&CONST)` on an Option of a declared struct; `error!` among the dropped logging
+               macros; `&[u64]` parameters (read like a Vec<u64>) and `for x in <slice parameter> { .. }`;
+               a *tail* of a function body: the statements from a marker statement to the end of the body, verbatim,
+               read as the body of a function of the variables they use - the caller of the translator names the marker
+               and the variables and checks their declarations in the part that is not read (types from the signature,
+               `let mut beneficial_sum = 0u64;`, no rebinding).  What the unread part computes is not covered.
   refused    : a Rust binder whose name the generated text uses itself (prof, warn, policy, Val, t<digits>, gen_.., ..), a
                `let` that shadows a variable in scope, `return`, `else`
                branches of statements, `match`, `&mut`, closures anywhere else, struct literals, everything not listed.
@@ -214,6 +223,8 @@ def norm_type(t, known=None):
         m = re.match(r"^Result<([A-Z][A-Za-z0-9]*),ValidationError>$", t)
         if m and m.group(1) not in known:
             return "result:id"            # Ok carries an opaque value
+        if t == "Result<u64,ValidationError>":
+            return "result:u64"
         m = re.match(r"^Vec<([A-Z][A-Za-z0-9]*)>$", t)
         if m and known.get(m.group(1), "").startswith("struct:"):
             return "vec:" + m.group(1)
@@ -342,6 +353,13 @@ class P:
             if self.at("dyn"):
                 self.eat("dyn")
                 return "dyn:" + self.eat(kind="id")     # a trait object: its methods are parameters of the translation
+            if self.at("["):
+                self.eat("[")
+                inner = self.type()
+                self.eat("]")
+                if inner != "u64":
+                    raise GenError("a slice of %s is outside the fragment" % inner)
+                return "vec"                            # &[u64]: read like a Vec<u64>
             return self.type()
         if self.known is not None and self.at("("):
             self.eat("(")
@@ -1652,7 +1670,7 @@ class GenR(Gen):
             return self.coq_struct[t[7:]][0]
         if t.startswith("struct:") or t.startswith("enum:"):
             return t.split(":", 1)[1]
-        if t == "result:id":
+        if t in ("result:id", "result:u64"):
             return "(result N)"
         if t.startswith("dyn:") or t.startswith("ext:"):
             return "N"                        # a trait object / a foreign value: an identity
@@ -1688,10 +1706,10 @@ class GenR(Gen):
         return x
 
     def tagged(self):
-        return self.cur["ret"] in ("result_unit", "result:id")
+        return self.cur["ret"] in ("result_unit", "result:id", "result:u64")
 
     PRINTABLE = Gen.PRINTABLE + ("id", "opt_id", "vec_u32", "ext:LockTime", "ext:Version")   # {} / {:?} of a foreign value: assumed not to panic
-    LOGGING = ("debug", "trace", "info", "warn", "dbgvals", "policy_log")
+    LOGGING = ("debug", "trace", "info", "warn", "error", "dbgvals", "policy_log")
 
     def proj(self, sn, f, c):
         pre = self.coq_struct[sn][1] if sn in self.coq_struct else sn
@@ -1724,6 +1742,8 @@ class GenR(Gen):
                 pname, _, rty = self.opaque_fns[x]
                 self.use_opaque(pname, rty)
                 return [], pname, rty             # a constant of a foreign crate: a parameter
+            if x in self.consts and isinstance(self.consts[x][1], str):
+                return [], self.consts[x][1], self.consts[x][0]      # a constant struct value
             if x in self.consts and isinstance(self.consts[x][1], list):
                 return [], "[%s]" % "; ".join("%d" % v_ for v_ in self.consts[x][1]), self.consts[x][0]
             if "::" in x and x.split("::")[0] in self.enums:
@@ -1792,11 +1812,11 @@ class GenR(Gen):
                 if ta != "id":
                     raise GenError("Some(..) of a %s is outside the fragment" % ta)
                 return b1, "(Some %s)" % a, "opt_id"
-            if e[1] == "Ok" and len(e[2]) == 1 and e[2] != [("unit",)] and self.cur["ret"] == "result:id":
+            if e[1] == "Ok" and len(e[2]) == 1 and e[2] != [("unit",)] and self.cur["ret"] in ("result:id", "result:u64"):
                 b1, a, ta = self.expr(e[2][0], env)
-                if ta != "id":
+                if ta != self.cur["ret"][7:]:
                     raise GenError("Ok(..) of a %s is outside the fragment" % ta)
-                return b1, "(OkR %s)" % a, "result:id"
+                return b1, "(OkR %s)" % a, self.cur["ret"]
             if e[1] in self.ext_fns:
                 qual, m2 = self.ext_fns[e[1]]
                 bs, cs = self.call_args(e[1], e[2], m2, env)
@@ -1818,6 +1838,13 @@ class GenR(Gen):
                 if not tv.startswith("vec:"):
                     raise GenError("len of a %s" % tv)
                 return b, "(len_of %s)" % v, "usize"
+            if name == "unwrap_or" and len(args) == 1:
+                b, v, tv = self.expr(recv, env)
+                if tv.startswith("opt_struct:"):
+                    b2, c2, t2 = self.expr(args[0], env)         # evaluated whether or not it is needed
+                    if t2 != "struct:" + tv[11:]:
+                        raise GenError("unwrap_or(%s) on %s" % (t2, tv))
+                    return b + b2, "(match %s with Some v_ => v_ | None => %s end)" % (v, c2), t2
             if name in ("is_none", "is_some") and not args:
                 b, v, tv = self.expr(recv, env)
                 if not (tv in ("opt_id", "opt_u64", "opt_u32") or tv.startswith("opt_struct:")):
@@ -2091,12 +2118,13 @@ class GenR(Gen):
         if inner[0] == "mcall" and inner[1] == ("var", "self") and self.owner == self.validator \
                 and (self.validator, inner[2]) in self.methods2:
             m2 = self.methods2[(self.validator, inner[2])]
-            if m2["ret"] != "result_unit":
-                raise GenError("`?` on %s, which does not return Result<(), _>" % inner[2])
+            if m2["ret"] not in ("result_unit", "result:u64"):
+                raise GenError("`?` on %s, which does not return Result<(), _> or Result<u64, _>" % inner[2])
             bs, cs = self.call_args(inner[2], inner[3], m2, env)
             extra = self.pass_opaque((self.validator, inner[2]))
             x = self.fresh()
-            return bs + [(x, " ".join([self.validator_head(inner[2])] + extra + cs), "tryR")], x, "unit"
+            return bs + [(x, " ".join([self.validator_head(inner[2])] + extra + cs), "tryR")], x, \
+                "unit" if m2["ret"] == "result_unit" else "u64"
         raise GenError("`?` on %r is outside the fragment" % (inner,))
 
     def emit_binds(self, binds, k):
@@ -2412,16 +2440,20 @@ class GenR(Gen):
                 seq = it[1]
             elif it[0] == "mcall" and it[2] == "iter" and not it[3]:
                 seq = it[1]
+            elif it[0] == "var" and env.get(it[1]) == "vec" and it[1] in dict(self.cur["params"]) and it[1] not in self.rebound:
+                seq = it                          # `for x in s` for a slice parameter s: &[u64] (iterates by reference)
             else:
-                raise GenError("only `for x in &v` / `for x in v.iter()` are inside the fragment")
+                raise GenError("only `for x in &v` / `for x in v.iter()` / `for x in <slice parameter>` are inside the fragment")
             b, v, tv = self.expr(seq, env)
+            if tv == "vec":
+                tv = "vec:"                       # elements are u64
             if not tv.startswith("vec:"):
                 raise GenError("a loop over a %s is outside the fragment" % tv)
             carried = self.assigned2(body)
             if not carried:
                 # a loop that only checks: the loop-carried state is the unit value
                 env_b = dict(env)
-                env_b[self.binder(var, env=env)] = "struct:" + tv[4:]
+                env_b[self.binder(var, env=env)] = "struct:" + tv[4:] if tv[4:] else "u64"
                 self.rebound.add(var)
                 self.depth += 1
                 inner = self.stmts(body, env_b, lambda e2: "Val (OkR tt)")
@@ -2432,7 +2464,7 @@ class GenR(Gen):
             if len(carried) != 1 or carried[0] not in env:
                 raise GenError("a loop that assigns more than one variable of the enclosing block is outside the fragment")
             env_b = dict(env)
-            env_b[self.binder(var, env=env)] = "struct:" + tv[4:]
+            env_b[self.binder(var, env=env)] = "struct:" + tv[4:] if tv[4:] else "u64"
             self.rebound.add(var)
             self.depth += 1
             inner = self.stmts(body, env_b, lambda e2: "Val (OkR %s)" % carried[0])
@@ -2574,13 +2606,8 @@ def _generate_commitment_policy(repo):
     for n in ("MAX_CLTV_EXPIRY", "MIN_CHAN_DUST_LIMIT_SATOSHIS", "MIN_DUST_LIMIT_SATOSHIS"):
         if re.search(r"\bconst\s+%s\b" % n, sv):
             raise GenError("simple_validator.rs declares its own %s" % n)
-    known = {"CommitmentType": "enum:CommitmentType", "HTLCInfo2": "struct:HTLCInfo2",
-             "CommitmentInfo2": "struct:CommitmentInfo2", "ChannelSetup": "struct:ChannelSetup",
-             "ChainState": "struct:ChainState", "SimplePolicy": "struct:SimplePolicy"}
+    known, structs, struct_src = policy_decls(core)
     enums = {"CommitmentType": enum_variants(ch, "CommitmentType")}
-    struct_src = [("HTLCInfo2", tx, "tx/tx.rs"), ("CommitmentInfo2", tx, "tx/tx.rs"), ("ChannelSetup", ch, "channel.rs"),
-                  ("ChainState", va, "policy/validator.rs"), ("SimplePolicy", sv, "policy/simple_validator.rs")]
-    structs = {n: struct_fields(src, n, skip_unknown=True, known=known) for n, src, _ in struct_src}
     consts = {}
     for n, (src, where) in {"MAX_CLTV_EXPIRY": (pm, "policy/mod.rs"), "MIN_CHAN_DUST_LIMIT_SATOSHIS": (tu, "util/transaction_utils.rs"),
                             "MIN_DUST_LIMIT_SATOSHIS": (tu, "util/transaction_utils.rs")}.items():
@@ -2734,9 +2761,10 @@ def policy_decls(core):
     sv, ch, tx, va = rd("policy", "simple_validator.rs"), rd("channel.rs"), rd("tx", "tx.rs"), rd("policy", "validator.rs")
     known = {"CommitmentType": "enum:CommitmentType", "HTLCInfo2": "struct:HTLCInfo2",
              "CommitmentInfo2": "struct:CommitmentInfo2", "ChannelSetup": "struct:ChannelSetup",
-             "ChainState": "struct:ChainState", "SimplePolicy": "struct:SimplePolicy"}
+             "ChainState": "struct:ChainState", "PolicyDevFlags": "struct:PolicyDevFlags", "SimplePolicy": "struct:SimplePolicy"}
     struct_src = [("HTLCInfo2", tx, "tx/tx.rs"), ("CommitmentInfo2", tx, "tx/tx.rs"), ("ChannelSetup", ch, "channel.rs"),
-                  ("ChainState", va, "policy/validator.rs"), ("SimplePolicy", sv, "policy/simple_validator.rs")]
+                  ("ChainState", va, "policy/validator.rs"), ("PolicyDevFlags", sv, "policy/simple_validator.rs"),
+                  ("SimplePolicy", sv, "policy/simple_validator.rs")]
     structs = {n: struct_fields(src, n, skip_unknown=True, known=known) for n, src, _ in struct_src}
     return known, structs, struct_src
 
@@ -2970,6 +2998,106 @@ def _generate_mutual_close(repo):
             "parameters": ["mutual_close_weight", "wallet_can_spend", "wallet_allowlist_contains", "warn (the policy filter)"]}
 
 
+
+def struct_const(src, name, struct, fields, mk):
+    """`const NAME: S = S { f: <bool or integer literal>, .. };` -> Gallina text of the record value"""
+    m = re.search(r"\nconst %s\s*:\s*%s\s*=\s*%s\s*\{([^{}]*)\}\s*;" % (re.escape(name), re.escape(struct), re.escape(struct)), src)
+    if not m:
+        raise GenError("constant %s: `const %s: %s = %s { .. };` not found" % (name, name, struct, struct))
+    given = {}
+    for part in m.group(1).split(","):
+        part = part.strip()
+        if not part:
+            continue
+        fm = re.match(r"^([a-z_][a-z0-9_]*)\s*:\s*(true|false|[0-9][0-9_]*)$", part)
+        if not fm:
+            raise GenError("constant %s: field initialiser %r is outside the fragment" % (name, part))
+        given[fm.group(1)] = fm.group(2).replace("_", "")
+    if sorted(given) != sorted(f for f, _ in fields):
+        raise GenError("constant %s: fields %s, the struct has %s" % (name, sorted(given), sorted(f for f, _ in fields)))
+    return "(%s %s)" % (mk, " ".join(given[f] for f, _ in fields))
+
+
+def generate_onchain(repo):
+    try:
+        return _generate_onchain(repo)
+    except (IndexError, KeyError, ValueError, TypeError, AttributeError, RecursionError, OSError) as e:
+        raise GenError("the source could not be read (%s: %s)" % (type(e).__name__, e))
+
+
+def _generate_onchain(repo):
+    """Gen/OnchainGen.v: validate_beneficial_value, and the fee tail of validate_onchain_tx (the statements from
+    `let mut sum_inputs: u64 = 0;` to the end of the function) as a function of the variables it reads."""
+    core = os.path.join(repo, "vls-core", "src")
+    rd = lambda *p: open(os.path.join(core, *p)).read()
+    sv, tu = rd("policy", "simple_validator.rs"), rd("util", "transaction_utils.rs")
+    check_error_helpers(core)
+    uses = use_table(sv)
+    for n, mod in {"estimate_feerate_per_kw": "crate::util::transaction_utils", "policy_error": "super::error"}.items():
+        if uses.get(n) != mod:
+            raise GenError("simple_validator.rs: %s is expected from %s, found %s" % (n, mod, uses.get(n)))
+    known_cp, structs_cp, _ = policy_decls(core)
+    known = dict(known_cp)
+    structs = {n: structs_cp[n] for n in ("SimplePolicy", "PolicyDevFlags")}
+    cp = "CommitmentPolicyGen."
+    consts = {"DEFAULT_DEV_FLAGS": ("struct:PolicyDevFlags",
+                                    struct_const(sv, "DEFAULT_DEV_FLAGS", "PolicyDevFlags", structs["PolicyDevFlags"], cp + "mk_PolicyDevFlags"))}
+    ext = {"estimate_feerate_per_kw": ("TxUtilGen.gen_estimate_feerate_per_kw", P(lex(free_fn_source(tu, "estimate_feerate_per_kw"))).fn())}
+    texts, methods = {}, {}
+    texts["validate_beneficial_value"] = method_source(sv, "SimpleValidator", "validate_beneficial_value")
+    methods[("SimpleValidator", "validate_beneficial_value")] = P(lex(texts["validate_beneficial_value"]), known).fn()
+    # the fee tail of validate_onchain_tx: the text from the marker statement to the end of the body, read as the body of
+    # a function of the variables it uses; their types are taken from the signature and from the declaration in the body
+    whole = method_source(sv, None, "validate_onchain_tx", header="impl Validator for SimpleValidator")
+    # the tail starts at the accumulator of the loop over values_sat: `let mut <acc>: u64 = 0; for <x> in values_sat {`
+    mk = re.findall(r"let mut [a-z_][a-z0-9_]*: u64 = 0;(?=\s*for [a-z_][a-z0-9_]* in values_sat \{)", whole)
+    if len(mk) != 1 or whole.count(mk[0]) != 1:
+        raise GenError("validate_onchain_tx: `let mut <acc>: u64 = 0;` in front of `for <x> in values_sat {` is expected exactly once")
+    marker_stmt = mk[0]
+    head_, tail_ = whole.split(marker_stmt)
+    sig = re.sub(r"\s+", " ", head_[:head_.index("{")])
+    for decl in ("values_sat: &[u64],", "weight_lower_bound: usize,", ") -> Result<u64, ValidationError>"):
+        if decl not in sig:
+            raise GenError("validate_onchain_tx: `%s` not found in the signature" % decl)
+    if len(re.findall(r"\blet mut beneficial_sum = 0u64;", head_)) != 1:
+        raise GenError("validate_onchain_tx: `let mut beneficial_sum = 0u64;` is expected exactly once in front of the fee tail")
+    if "let mut debug_on_return = scoped_debug_return!(" not in head_:
+        raise GenError("validate_onchain_tx: the debugging guard is expected in front of the fee tail")
+    for v in ("values_sat", "weight_lower_bound"):
+        if re.search(r"\blet\s+(?:mut\s+)?%s\b" % v, head_):
+            raise GenError("validate_onchain_tx: %s is rebound in front of the fee tail" % v)
+    tail_fn = ("fn validate_onchain_tx_fee_tail(&self, beneficial_sum: u64, values_sat: &[u64], weight_lower_bound: usize) "
+               "-> Result<u64, ValidationError> {\n        let mut debug_on_return = scoped_debug_return!(beneficial_sum);\n        "
+               + marker_stmt + tail_)
+    texts["validate_onchain_tx_fee_tail"] = marker_stmt + tail_.rstrip()[:-1].rstrip()
+    methods[("SimpleValidator", "validate_onchain_tx_fee_tail")] = P(lex(tail_fn), known).fn()
+    g = GenR(structs, {}, methods, consts, ext, [], "SimpleValidator", "SimplePolicy", known)
+    g.coq_struct = {n: (cp + n, cp + n) for n in ("SimplePolicy", "PolicyDevFlags")}
+    out = []
+    out.append("(* validate_beneficial_value (policy/simple_validator.rs, `impl SimpleValidator`)\n%s *)\n%s" % ("\n".join(
+        "   " + l for l in texts["validate_beneficial_value"].strip().replace("(*", "( *").replace("*)", "* )").splitlines()),
+        g.method2("SimpleValidator", methods[("SimpleValidator", "validate_beneficial_value")])))
+    out.append("(* the fee tail of validate_onchain_tx (policy/simple_validator.rs, `impl Validator for SimpleValidator`): the\n"
+               "   statements below, verbatim, as a function of beneficial_sum (`let mut beneficial_sum = 0u64;` of the body),\n"
+               "   values_sat and weight_lower_bound (parameters of validate_onchain_tx)\n%s *)\n%s" % ("\n".join(
+        "   " + l for l in texts["validate_onchain_tx_fee_tail"].replace("(*", "( *").replace("*)", "* )").splitlines()),
+        g.method2("SimpleValidator", methods[("SimpleValidator", "validate_onchain_tx_fee_tail")])))
+    text = ("(** GENERATED by tools/gen_rustfn.py - do not edit.  Statement-by-statement translation of\n"
+            "      SimpleValidator::validate_beneficial_value (whole body) and the fee tail of ::validate_onchain_tx - the statements\n"
+            "      from the accumulator of the loop over values_sat (`let mut sum_inputs: u64 = 0;`) to the end of the function (the\n"
+            "      checked sum of the input values, the call of\n"
+            "      validate_beneficial_value, Ok(non_beneficial)); the per-output loop in front of it is outside the fragment.\n"
+            "    DEFAULT_DEV_FLAGS is read from the file; SimplePolicy / PolicyDevFlags are the records of Gen/CommitmentPolicyGen.v,\n"
+            "    estimate_feerate_per_kw is the translation of Gen/TxUtilGen.v.  The meaning of every construct is in Base/Rust.v. *)\n"
+            "From Coq Require Import String.\nFrom VLS Require Export Base.Rust.\nFrom VLS Require Gen.TxUtilGen Gen.CommitmentPolicyGen.\n\n"
+            + "\n\n".join(out) + "\n")
+    outp = os.path.join(ROOT, "coq", "theories", "Gen", "OnchainGen.v")
+    if not os.path.exists(outp) or open(outp).read() != text:
+        open(outp, "w").write(text)
+    return {"translated": ["SimpleValidator::validate_beneficial_value", "SimpleValidator::validate_onchain_tx (fee tail)"],
+            "constants": {"DEFAULT_DEV_FLAGS": consts["DEFAULT_DEV_FLAGS"][1]}, "parameters": ["warn (the policy filter)"]}
+
+
 if __name__ == "__main__":
     repo = sys.argv[1] if len(sys.argv) > 1 else "/repo"
     print(generate_velocity(repo))
@@ -2981,3 +3109,4 @@ if __name__ == "__main__":
     print(generate_enforcement_rules(repo))
     print(generate_sweep(repo))
     print(generate_mutual_close(repo))
+    print(generate_onchain(repo))
